@@ -213,6 +213,12 @@ def tool_library():
                  "inputs": {"a": {"type": "int", "inputBinding": {"position": 1}}},
                  "outputs": {"o": "int"}},
         {"a": "int"}, {"o": "int"}, kind="clt", rare=True)
+    # Directory output with same-basename files of different content in sub-directories (C34 corpus only)
+    add("mkdir", {"class": "CommandLineTool",
+                  "baseCommand": _py("import os, sys; n=int(sys.argv[1]); [os.makedirs('res/sample_%d' % i) for i in range(2)]; [open('res/sample_%d/counts.txt' % i, 'w').write('sample %d count %d\\n' % (i, n * (i + 3))) for i in range(2)]; open('res/readme.txt', 'w').write('results for %d\\n' % n)"),
+                  "inputs": {"n": {"type": "int", "inputBinding": {"position": 1}}},
+                  "outputs": {"d": {"type": "Directory", "outputBinding": {"glob": "res"}}}},
+        {"n": "int"}, {"d": "Directory"}, kind="clt", loop_only=True, corpus_only=True)
     # loop bodies: (i, acc) -> (i2, acc2)
     add("body", _et({"i": "int", "acc": "int"}, {"i2": "int", "acc2": "int"},
                     "${return {'i2': inputs.i + 1, 'acc2': (inputs.acc * 2 + inputs.i) % 1009};}"),
@@ -545,6 +551,12 @@ class Gen:
     def value_from(self, t, scope):
         r = self.rng
         F = self.features
+        if r.random() < 0.2:
+            # no source at all: `self` is the step input's default
+            F.add("valueFrom_on_default_no_source")
+            if t == "int":
+                return {"default": r.randint(0, 9), "valueFrom": r.choice(["$(self + 1)", "$(self * 2)"])}
+            return {"default": self.word(), "valueFrom": "$(self + '_v')"}
         ints = self.candidates(scope, "int")
         if t == "int":
             arrs = [e for e in scope if is_arr(e["t"]) and not is_opt(e["t"])]
@@ -875,7 +887,7 @@ def gen_case(rng, n=0):
 def gen_tool_case(rng, n=0):
     """a bare CommandLineTool / ExpressionTool run (no Workflow) with a job for every input."""
     g = Gen(rng)
-    names = [k for k, t in TOOLS.items() if not t.get("rare")]
+    names = [k for k, t in TOOLS.items() if not t.get("rare") and not t.get("corpus_only")]
     tool = TOOLS[rng.choice(names)]
     doc = dict({"cwlVersion": "v1.2"}, **copy.deepcopy(tool["doc"]))
     job = {}
@@ -899,6 +911,84 @@ def gen_tool_case(rng, n=0):
             job[k] = lit
     return {"wf": doc, "job": job, "files": g.files,
             "meta": {"types": {}, "features": ["bare_tool", "run_" + doc["class"]], "gen": n, "bare_tool": tool["name"]}}
+
+
+# ----------------------------------------------------------------------------- directed corpus
+def _doc(inputs, steps, outputs, job, name, files=None):
+    wf = {"cwlVersion": "v1.2", "$namespaces": {"cwltool": CWLTOOL_NS}, "class": "Workflow",
+          "requirements": copy.deepcopy(WF_REQS), "inputs": inputs, "outputs": outputs, "steps": steps}
+    return {"wf": wf, "job": job, "files": files or {},
+            "meta": {"types": {}, "features": sorted(set(doc_features(wf)) | {"directed:" + name}), "gen": name}}
+
+
+def directed_cases():
+    """A fixed corpus of small documents, one construct each, run in every tier before the random documents
+    (spread over the shards): constructs whose random frequency is too low for the quick tier to rely on."""
+    T = lambda n: copy.deepcopy(TOOLS[n]["doc"])  # noqa: E731
+    I, AI, AS = {"type": "int"}, {"type": cwl_type("int[]")}, {"type": cwl_type("string[]")}
+    OI, OAI, OS = {"type": cwl_type("int?")}, {"type": cwl_type("int[]")}, {"type": "string"}
+    out = []
+    # default without source + valueFrom using `self`, next to another connected input
+    out.append(_doc({"i1": I}, {"s0": {"run": T("add"), "in": {"a": "i1", "b": {"default": 5, "valueFrom": "$(self + 1)"}}, "out": ["o"]}},
+                    {"o": dict(I, outputSource="s0/o")}, {"i1": 100}, "valueFrom_self_is_default"))
+    # ... with a scatter over the other input
+    out.append(_doc({"arr": AI}, {"s0": {"run": T("add"), "in": {"a": "arr", "b": {"default": 5, "valueFrom": "$(self + 1)"}}, "out": ["o"], "scatter": "a"}},
+                    {"o": dict(OAI, outputSource="s0/o")}, {"arr": [100, 201, 302]}, "valueFrom_self_is_default_scatter"))
+    # ... inside a nested workflow, string flavour
+    inner = {"class": "Workflow", "requirements": copy.deepcopy(WF_REQS), "inputs": {"w": {"type": "string"}},
+             "outputs": {"q": dict(OS, outputSource="c/o")},
+             "steps": {"c": {"run": T("cat"), "in": {"s": "w", "t": {"default": "dd", "valueFrom": "$(self + '_v')"}}, "out": ["o"]}}}
+    out.append(_doc({"s1": {"type": "string"}}, {"s0": {"run": inner, "in": {"w": "s1"}, "out": ["q"]}},
+                    {"q": dict(OS, outputSource="s0/q")}, {"s1": "alpha"}, "valueFrom_self_is_default_nested"))
+    # loop with more than ten iterations, last / all
+    for method, t in (("last", OI), ("all", OAI)):
+        out.append(_doc({"i1": I}, {"s0": {"run": T("body"), "in": {"i": {"default": 0}, "acc": "i1"}, "out": ["i2", "acc2"],
+                                          "requirements": {"cwltool:Loop": {"loopWhen": "$(inputs.i < 12)", "loop": {"i": "i2", "acc": "acc2"}, "outputMethod": method}}}},
+                        {"o": dict(t, outputSource="s0/i2"), "p": dict(t, outputSource="s0/acc2")}, {"i1": 3}, "loop_12_" + method))
+    # pickValue with a real null
+    skipped = {"s0": {"run": T("add"), "in": {"a": "i1", "b": "i2"}, "out": ["o"], "when": "$(inputs.a > 3)"}}
+    out.append(_doc({"i1": I, "i2": I}, copy.deepcopy(skipped),
+                    {"m": {"type": cwl_type("int[]"), "outputSource": ["s0/o", "i1", "i2"], "pickValue": "all_non_null"}}, {"i1": 2, "i2": 4}, "all_non_null_with_null"))
+    out.append(_doc({"i1": I, "i2": I}, {"s0": {"run": T("add"), "in": {"a": "i1", "b": "i2"}, "out": ["o"]}},
+                    {"m": {"type": "int", "outputSource": ["s0/o", "i2"], "pickValue": "first_non_null"}}, {"i1": 8, "i2": 4}, "first_non_null_two_values"))
+    out.append(_doc({"i1": I, "i2": I}, copy.deepcopy(skipped),
+                    {"m": {"type": "int", "outputSource": ["s0/o", "i2"], "pickValue": "the_only_non_null"}}, {"i1": 2, "i2": 4}, "the_only_non_null"))
+    # merges: declared order, flattening order
+    out.append(_doc({"i1": I, "i2": I}, {"s0": {"run": T("add"), "in": {"a": "i1", "b": "i2"}, "out": ["o"]}},
+                    {"m": {"type": cwl_type("int[]"), "outputSource": ["s0/o", "i1"], "linkMerge": "merge_nested"}}, {"i1": 8, "i2": 4}, "merge_nested_order"))
+    out.append(_doc({"arr": AI, "arr2": AI}, {"s0": {"run": T("sum"), "in": {"xs": {"source": ["arr", "arr2"], "linkMerge": "merge_flattened"}}, "out": ["o"]}},
+                    {"q": dict(I, outputSource="s0/o"), "f": {"type": cwl_type("int[]"), "outputSource": ["arr2", "arr"], "linkMerge": "merge_flattened"}},
+                    {"arr": [1, 2], "arr2": [7]}, "merge_flattened_order"))
+    # nested crossproduct: second array empty (agrees), three inputs non-empty
+    out.append(_doc({"arr": AI, "arr2": AI}, {"s0": {"run": T("add"), "in": {"a": "arr", "b": "arr2"}, "out": ["o"], "scatter": ["a", "b"], "scatterMethod": "nested_crossproduct"}},
+                    {"m": {"type": cwl_type("int[][]"), "outputSource": "s0/o"}}, {"arr": [1, 2], "arr2": []}, "nested_crossproduct_second_empty"))
+    out.append(_doc({"arr": AI, "arr2": AI, "sarr": AS},
+                    {"s0": {"run": T("strs"), "in": {"n": "arr", "s": "sarr", "z": "arr2"}, "out": ["o"], "scatter": ["n", "s", "z"], "scatterMethod": "nested_crossproduct"}},
+                    {"m": {"type": ["null", "Any"], "outputSource": "s0/o"}}, {"arr": [1, 2], "arr2": [4], "sarr": ["p", "q", "r"]}, "nested_crossproduct_three"))
+    # dotproduct and flat crossproduct
+    out.append(_doc({"arr": AI}, {"s0": {"run": T("add"), "in": {"a": "arr", "b": "arr"}, "out": ["o"], "scatter": ["a", "b"], "scatterMethod": "dotproduct"},
+                                  "s1": {"run": T("add"), "in": {"a": "arr", "b": "s0/o"}, "out": ["o"], "scatter": ["a", "b"], "scatterMethod": "flat_crossproduct"}},
+                    {"d": dict(OAI, outputSource="s0/o"), "f": dict(OAI, outputSource="s1/o")}, {"arr": [1, 5, 9]}, "dot_and_flat"))
+    # step default on a null source, tool default, when + scatter
+    out.append(_doc({"oi": OI, "arr": AI}, {"s0": {"run": T("add"), "in": {"a": {"source": "oi", "default": 7}}, "out": ["o"]},
+                                            "s1": {"run": T("mul"), "in": {"a": "arr"}, "out": ["o"], "scatter": "a", "when": "$(inputs.a > 3)"}},
+                    {"o": dict(I, outputSource="s0/o"), "w": {"type": cwl_type("int?[]"), "outputSource": "s1/o"}}, {"oi": None, "arr": [1, 5, 2, 9]}, "defaults_and_when_scatter"))
+    return out
+
+
+def directed_cases_c34():
+    """runs whose outputs include a Directory with same-basename files in different sub-directories"""
+    T = lambda n: copy.deepcopy(TOOLS[n]["doc"])  # noqa: E731
+    out = []
+    out.append(_doc({"i1": {"type": "int"}}, {"s0": {"run": T("mkdir"), "in": {"n": "i1"}, "out": ["d"]}},
+                    {"d": {"type": "Directory", "outputSource": "s0/d"}}, {"i1": 4}, "directory_same_basename_subdirs"))
+    out.append(_doc({"i1": {"type": "int"}, "f1": {"type": "File"}},
+                    {"s0": {"run": T("mkdir"), "in": {"n": "i1"}, "out": ["d"]}, "s1": {"run": T("wc"), "in": {"f": "f1"}, "out": ["o", "p"]}},
+                    {"d": {"type": "Directory", "outputSource": "s0/d"}, "n": {"type": "int", "outputSource": "s1/o"}, "m": {"type": "int", "outputSource": "s1/p"}},
+                    {"i1": 7, "f1": {"class": "File", "path": "in_0.txt"}}, "directory_and_file_input", files={"in_0.txt": "alpha b\nZed\n"}))
+    tool = dict({"cwlVersion": "v1.2"}, **T("mkdir"))
+    out.append({"wf": tool, "job": {"n": 5}, "files": {}, "meta": {"types": {}, "features": ["bare_tool", "directed:bare_tool_directory"], "gen": "bare_tool_directory"}})
+    return out
 
 
 # ----------------------------------------------------------------------------- document analysis
